@@ -3,6 +3,7 @@ import FitModel.Items
 import FitProofs.Codec
 import FitProps.C02
 import FitProps.C17
+import FitProofs.EncodeItems
 /-!
   C06 — Encode then Decode returns the values that were put in.
 
@@ -105,5 +106,180 @@ where
   Props.C12_datetime (ts : TsRef) (pf : PField) (v : Nat) (hk : tcKind pf.tcode = .timeUTC) (hv : v ≠ 0xFFFFFFFF) :
       (parseTimeStamp ts pf v).1 = some (.t v 0 0) := by
     unfold parseTimeStamp; simp [hv, hk]
+
+/-! ### one field through the real encoder and decoder functions -/
+
+/-- Go slot of an unsigned base type of `w` bytes -/
+theorem unsigned_slot_width (b w : Nat)
+    (hw : (w = 1 ∧ (b = Base.enum ∨ b = Base.byte ∨ b = Base.uint8 ∨ b = Base.uint8z)) ∨
+          (w = 2 ∧ (b = Base.uint16 ∨ b = Base.uint16z)) ∨
+          (w = 4 ∧ (b = Base.uint32 ∨ b = Base.uint32z))) :
+    scOfBase b = some (.u (8 * w)) ∧ b ≠ Base.string ∧ Base.size b = w := by
+  rcases hw with ⟨rfl, h | h | h | h⟩ | ⟨rfl, h | h⟩ | ⟨rfl, h | h⟩ <;> subst h <;> decide
+
+/-- a native scalar field through the real functions, given the value-level round trip -/
+theorem native_scalar_field (P : Profile) (hwf : ProfileWF P = true) (dm : DefMsg) (pf : PField)
+    (msg : Msg) (ts : TsRef) (sck : Sc) (v : Val) (bs : Bytes)
+    (hgf : P.getField dm.global pf.num = some pf)
+    (hnat : tcKind pf.tcode = .native) (harr : tcArray pf.tcode = false)
+    (hsc : scOfBase (tcBase pf.tcode) = some sck)
+    (he : encodeScalar dm.arch pf sck v = .ok bs)
+    (hp : parseFitField dm.arch (fdOf pf) (.sc sck) bs = .ok (some v)) :
+    writeField dm.arch pf (.sc sck) v = .ok bs ∧ bs.length = (fdOf pf).size ∧
+      applyField P dm true (fdOf pf) bs (some msg) ts =
+        .ok (some { msg with vals := setAt msg.vals pf.sindex v }) ts := by
+  obtain ⟨pm, hpm, hfw⟩ := getField_wf P hwf _ _ _ hgf
+  have facts := fieldWF_facts pm pf hfw
+  obtain ⟨k, hl, hslot⟩ := facts.slot
+  have hk : k = .sc sck := by
+    unfold slotOfType at hslot
+    rw [hnat] at hslot
+    simp only [hsc, harr, Bool.false_eq_true, ↓reduceIte, Option.some.injEq] at hslot
+    exact hslot.symm
+  subst hk
+  have hwf' : writeField dm.arch pf (.sc sck) v = .ok bs := by
+    unfold writeField
+    simp only [harr, Bool.not_false, ↓reduceIte]
+    exact he
+  have hlen := writeField_length dm.arch pm pf _ _ bs facts hslot hwf'
+  refine ⟨hwf', hlen, ?_⟩
+  unfold applyField
+  simp only [fdOf, hgf, hpm, hl, hnat, harr]
+  simp only [Bool.not_true, Bool.false_eq_true, ↓reduceIte, Bool.not_false]
+  have hnn2 : ¬ (tcBase pf.tcode ≠ Base.string ∧ True ∧ Kind.native ≠ Kind.native) := fun h => h.2.2 rfl
+  rw [if_neg hnn2]
+  have htake : bs.take (szOf pf) = bs := by rw [← hlen]; exact List.take_length
+  rw [htake]
+  have hp' : parseFitField dm.arch ⟨pf.num, szOf pf, tcBase pf.tcode⟩ (.sc sck) bs = .ok (some v) := hp
+  rw [hp']
+
+/-- **An unsigned scalar field, end to end**: `writeField` emits bytes of the declared size, and
+    `applyField` — run with the definition the encoder writes for that field — stores exactly the
+    value that was encoded, touching nothing else and leaving the timestamp reference alone. -/
+theorem unsigned_field_roundtrip (P : Profile) (hwf : ProfileWF P = true) (dm : DefMsg) (pf : PField)
+    (msg : Msg) (ts : TsRef) (w n : Nat)
+    (hgf : P.getField dm.global pf.num = some pf)
+    (hnat : tcKind pf.tcode = .native) (harr : tcArray pf.tcode = false)
+    (hw : (w = 1 ∧ (tcBase pf.tcode = Base.enum ∨ tcBase pf.tcode = Base.byte ∨ tcBase pf.tcode = Base.uint8 ∨
+              tcBase pf.tcode = Base.uint8z)) ∨
+          (w = 2 ∧ (tcBase pf.tcode = Base.uint16 ∨ tcBase pf.tcode = Base.uint16z)) ∨
+          (w = 4 ∧ (tcBase pf.tcode = Base.uint32 ∨ tcBase pf.tcode = Base.uint32z)))
+    (hn : n < 256 ^ w) :
+    ∃ part, writeField dm.arch pf (.sc (.u (8 * w))) (.u n) = .ok part ∧ part.length = (fdOf pf).size ∧
+      applyField P dm true (fdOf pf) part (some msg) ts =
+        .ok (some { msg with vals := setAt msg.vals pf.sindex (.u n) }) ts := by
+  obtain ⟨hsc, hns, hsz⟩ := unsigned_slot_width _ w hw
+  obtain ⟨bs, he, hp⟩ := unsigned_roundtrip dm.arch pf w n (fdOf pf) hnat hns hw hn
+  exact ⟨bs, native_scalar_field P hwf dm pf msg ts _ _ bs hgf hnat harr hsc he hp⟩
+
+theorem signed_slot_width (b w : Nat)
+    (hw : (w = 1 ∧ b = Base.sint8) ∨ (w = 2 ∧ b = Base.sint16) ∨ (w = 4 ∧ b = Base.sint32)) :
+    scOfBase b = some (.i (8 * w)) ∧ b ≠ Base.string := by
+  rcases hw with ⟨rfl, h⟩ | ⟨rfl, h⟩ | ⟨rfl, h⟩ <;> subst h <;> decide
+
+/-- **A signed scalar field, end to end.** -/
+theorem signed_field_roundtrip (P : Profile) (hwf : ProfileWF P = true) (dm : DefMsg) (pf : PField)
+    (msg : Msg) (ts : TsRef) (w : Nat) (z : Int)
+    (hgf : P.getField dm.global pf.num = some pf)
+    (hnat : tcKind pf.tcode = .native) (harr : tcArray pf.tcode = false)
+    (hw : (w = 1 ∧ tcBase pf.tcode = Base.sint8) ∨ (w = 2 ∧ tcBase pf.tcode = Base.sint16) ∨
+          (w = 4 ∧ tcBase pf.tcode = Base.sint32))
+    (hlo : -(2 ^ (8 * w - 1) : Int) ≤ z) (hhi : z < (2 ^ (8 * w - 1) : Int)) :
+    ∃ part, writeField dm.arch pf (.sc (.i (8 * w))) (.i z) = .ok part ∧ part.length = (fdOf pf).size ∧
+      applyField P dm true (fdOf pf) part (some msg) ts =
+        .ok (some { msg with vals := setAt msg.vals pf.sindex (.i z) }) ts := by
+  obtain ⟨hsc, hns⟩ := signed_slot_width _ w hw
+  obtain ⟨bs, he, hp⟩ := signed_roundtrip dm.arch pf w z (fdOf pf) hnat hns hw hlo hhi
+  exact ⟨bs, native_scalar_field P hwf dm pf msg ts _ _ bs hgf hnat harr hsc he hp⟩
+
+/-- **A string field, end to end**: valid UTF-8 without NUL, shorter than the profile's length. -/
+theorem string_field_roundtrip (P : Profile) (hwf : ProfileWF P = true) (dm : DefMsg) (pf : PField)
+    (msg : Msg) (ts : TsRef) (b : Bytes)
+    (hgf : P.getField dm.global pf.num = some pf)
+    (hnat : tcKind pf.tcode = .native) (harr : tcArray pf.tcode = false)
+    (hstr : tcBase pf.tcode = Base.string)
+    (hne : b ≠ []) (hfit : b.length < pf.length) (hnul : ∀ x ∈ b, x ≠ 0)
+    (hutf : utf8Valid (b ++ List.replicate (pf.length - b.length) 0) = true) :
+    ∃ part, writeField dm.arch pf (.sc .s) (.s b) = .ok part ∧ part.length = (fdOf pf).size ∧
+      applyField P dm true (fdOf pf) part (some msg) ts =
+        .ok (some { msg with vals := setAt msg.vals pf.sindex (.s b) }) ts := by
+  obtain ⟨bs, he, hp⟩ := string_roundtrip dm.arch (fdOf pf) b pf.length hstr hne hfit hnul hutf
+  have hsc : scOfBase (tcBase pf.tcode) = some .s := by rw [hstr]; decide
+  have he' : encodeScalar dm.arch pf .s (.s b) = .ok bs := by
+    unfold encodeScalar
+    simp only [hnat, hstr, ↓reduceIte, he]
+  exact ⟨bs, native_scalar_field P hwf dm pf msg ts _ _ bs hgf hnat harr hsc he' hp⟩
+
+/-- **A date_time field, end to end**: whole seconds in range come back unchanged; the timestamp
+    reference is re-based exactly when the field is number 253. -/
+theorem time_field_roundtrip (P : Profile) (hwf : ProfileWF P = true) (dm : DefMsg) (pf : PField)
+    (msg : Msg) (ts : TsRef) (secs : Nat)
+    (hgf : P.getField dm.global pf.num = some pf)
+    (hk : tcKind pf.tcode = .timeUTC) (h1 : 0 < secs) (h2 : secs < 4294967295) :
+    ∃ part, writeField dm.arch pf .time (.t secs 0 0) = .ok part ∧ part.length = (fdOf pf).size ∧
+      applyField P dm true (fdOf pf) part (some msg) ts =
+        .ok (some { msg with vals := setAt msg.vals pf.sindex (.t secs 0 0) })
+          (if pf.num = fieldNumTimeStamp then { timestamp := secs, lastOff := secs % 32 } else ts) := by
+  obtain ⟨pm, hpm, hfw⟩ := getField_wf P hwf _ _ _ hgf
+  have facts := fieldWF_facts pm pf hfw
+  obtain ⟨k, hl, hslot⟩ := facts.slot
+  have hkind := facts.kind
+  rw [hk] at hkind
+  obtain ⟨hpb, harr⟩ := hkind
+  have hkt : k = .time := by
+    unfold slotOfType at hslot
+    rw [hk] at hslot
+    simp only [harr, Bool.false_eq_true, ↓reduceIte, Option.some.injEq] at hslot
+    exact hslot.symm
+  subst hkt
+  obtain ⟨bs, he, hp⟩ := time_value_roundtrip dm.arch pf ts secs hk h1 h2
+  have hwf' : writeField dm.arch pf .time (.t secs 0 0) = .ok bs := by
+    unfold writeField
+    simp only [harr, Bool.not_false, ↓reduceIte]
+    exact he
+  have hlen := writeField_length dm.arch pm pf _ _ bs facts hslot hwf'
+  have hsz : szOf pf = 4 := by
+    unfold szOf
+    rw [hpb]
+    have hne : ¬ (Base.uint32 = Base.string) := by decide
+    simp only [harr, Bool.false_eq_true, ↓reduceIte, hne]
+    decide
+  refine ⟨bs, hwf', hlen, ?_⟩
+  have hps : tcBase pf.tcode ≠ Base.string := by rw [hpb]; decide
+  have hb4 : Base.size (tcBase pf.tcode) = 4 := by rw [hpb]; decide
+  unfold applyField
+  simp only [fdOf, hgf, hpm, hl, hk, harr]
+  simp only [Bool.not_true, Bool.false_eq_true, ↓reduceIte, Bool.not_false]
+  have hcond : tcBase pf.tcode ≠ Base.string ∧ True ∧ Kind.timeUTC ≠ Kind.native := ⟨hps, trivial, by simp⟩
+  rw [if_pos hcond]
+  have hpad : padTmp dm.arch (tcBase pf.tcode) bs (szOf pf) (Base.size (tcBase pf.tcode)) = bs := by
+    unfold padTmp
+    rw [hsz, hb4]
+    simp
+  rw [hpad]
+  have hl4 : ¬ bs.length < 4 := by rw [hlen]; simp only [fdOf, hsz]; omega
+  rw [if_neg hl4]
+  have htk : bs.take 4 = bs := by
+    have : bs.length = 4 := by rw [hlen]; simp only [fdOf, hsz]
+    rw [← this]; exact List.take_length
+  rw [htk]
+  -- the value and the reference
+  have hv : secs ≠ 0xFFFFFFFF := by omega
+  have hpt : parseTimeStamp ts pf (dm.arch.dec bs) =
+      (some (.t secs 0 0), if pf.num = fieldNumTimeStamp then { timestamp := secs, lastOff := secs % 32 } else ts) := by
+    have hdec : dm.arch.dec bs = secs := by
+      have : (parseTimeStamp ts pf (dm.arch.dec bs)).1 = some (.t secs 0 0) := hp
+      unfold parseTimeStamp at this
+      by_cases hx : dm.arch.dec bs = 0xFFFFFFFF
+      · simp [hx] at this
+      · simp only [hx, ↓reduceIte, hk] at this
+        injection this with this
+        injection this with this
+        exact Int.ofNat.inj this
+    rw [hdec]
+    unfold parseTimeStamp
+    simp only [hv, ↓reduceIte, hk]
+  rw [hpt]
+  simp
 
 end Fit.Props.C06
